@@ -48,11 +48,14 @@ theorem Ty.beq_iff_eq : ∀ (a b : Ty), (a == b) = true ↔ a = b := by
 inductive Castable (sub : Nat → Nat → Bool) : Ty → Ty → Prop
   /-- the same type -/
   | refl (a : Ty) : Castable sub a a
-  /-- `?` (uninitialized) and `any` are compatible with everything, in both directions -/
+  /-- `?` (uninitialized), `any` and `unknown` are compatible with everything, in both directions -/
   | uninitL (b : Ty) : Castable sub .uninitialized b
   | uninitR (a : Ty) : Castable sub a .uninitialized
   | anyL (b : Ty) : Castable sub .any b
   | anyR (a : Ty) : Castable sub a .any
+  /-- `unknown` (the type of a value that could not be typed) is compatible with everything too -/
+  | unknownL (b : Ty) : Castable sub .unknown b
+  | unknownR (a : Ty) : Castable sub a .unknown
   /-- `int` ↔ `bit`, `int` ↔ `bits<n>` -/
   | intBit : Castable sub .int .bit
   | bitInt : Castable sub .bit .int
@@ -83,19 +86,21 @@ theorem canBeCastedTo_iff (sub : Nat → Nat → Bool) (a b : Ty) :
     | case2 => exact .uninitR _
     | case3 => exact .anyL _
     | case4 => exact .anyR _
-    | case5 => exact .intBit
-    | case6 => exact .bitInt
-    | case7 => exact .intBits _
-    | case8 => exact .bitsInt _
-    | case9 => exact .stringCode
-    | case10 => exact .codeString
-    | case11 a b ih => exact .list (ih h)
-    | case12 i n j m =>
+    | case5 => exact .unknownL _
+    | case6 => exact .unknownR _
+    | case7 => exact .intBit
+    | case8 => exact .bitInt
+    | case9 => exact .intBits _
+    | case10 => exact .bitsInt _
+    | case11 => exact .stringCode
+    | case12 => exact .codeString
+    | case13 a b ih => exact .list (ih h)
+    | case14 i n j m =>
       simp only [Bool.or_eq_true, beq_iff_eq] at h
       rcases h with rfl | h
       · exact .recordSame _ _ _
       · exact .recordSub _ _ h
-    | case13 a b =>
+    | case15 a b =>
       rw [Ty.beq_iff_eq] at h
       subst h
       exact .refl _
@@ -106,6 +111,8 @@ theorem canBeCastedTo_iff (sub : Nat → Nat → Bool) (a b : Ty) :
     | uninitR a => cases a <;> simp [Ty.canBeCastedTo]
     | anyL b => cases b <;> simp [Ty.canBeCastedTo]
     | anyR a => cases a <;> simp [Ty.canBeCastedTo]
+    | unknownL b => cases b <;> simp [Ty.canBeCastedTo]
+    | unknownR a => cases a <;> simp [Ty.canBeCastedTo]
     | list _ ih => simpa [Ty.canBeCastedTo] using ih
     | recordSame i n m => simp [Ty.canBeCastedTo]
     | recordSub n m h => simp [Ty.canBeCastedTo, h]
